@@ -32,12 +32,12 @@ import LitexProofs.Stream.HandshakeGearboxLive
   | Endpoint.connect              | wire                                 | wire_stable               | wire_no_livelock 1, accepts 1         | yes  | A,B `wire`, `stages w`              |
   | PipeValid                     | pipeValid                            | pipeValid_stable          | progress 1, no_livelock 2, accepts 1  | yes  | A,B `pipevalid`                     |
   | PipeReady                     | pipeReady                            | pipeReady_stable          | no_livelock 1, accepts 2              | yes  | A,B `pipeready`                     |
-  | Buffer(pv, pr) (4 variants)   | stages (bufferStages pv pr)          | buffer_stable             | buffer_no_livelock ≤ 2                | yes  | A,B `buffer pv pr`, `buffer_vr`     |
+  | Buffer(pv, pr) (4 variants)   | stages (bufferStages pv pr)          | buffer_stable             | buffer_no_livelock_tight 1+Σlat ≤ 2   | yes  | A,B `buffer pv pr`, `buffer_vr`     |
   | _FIFOWrapper/SyncFIFO d ≥ 2   | syncFifo d / syncFifoBuffered d      | syncFifo(_Buffered)_stable| progress 1, no_livelock 2/3, acc 2    | yes  | A,B `syncfifo d`, `syncfifo_buffered d` |
-  | SyncFIFO, every depth ≥ 0     | stages (syncFifoStages d buffered)   | syncFifoAny_stable        | syncFifoAny_no_livelock ≤ 3           | yes  | A,B `sfifo d b` (selection in model)|
+  | SyncFIFO, every depth ≥ 0     | stages (syncFifoStages d buffered)   | syncFifoAny_stable        | syncFifoAny_no_livelock_tight ≤ 3     | yes  | A,B `sfifo d b` (selection in model)|
   | AsyncFIFO                     | —  (two clocks: C05)                 | C05                       | C05                                   | —    | C05                                 |
-  | ClockDomainCrossing same cd   | stages (cdcSameStages b)             | cdcSame_stable            | cdcSame_no_livelock ≤ 2               | yes  | A,B `cdcsame b`; other cd: C05      |
-  | Delay n                       | delay n / stages (delayStages n)     | delay_stable, delayn_stable | delay_no_livelock n+1, accepts 1    | yes  | A,B `delay n`, `delayn n`           |
+  | ClockDomainCrossing same cd   | stages (cdcSameStages b)             | cdcSame_stable            | cdcSame_no_livelock_tight ≤ 2         | yes  | A,B `cdcsame b`; other cd: C05      |
+  | Delay n                       | delay n / stages (delayStages n)     | delay_stable, delayn_stable | delay(n)_no_livelock(_tight) n+1, accepts 1 | yes | A,B `delay n`, `delayn n`   |
   | Pipeline(m_1..m_n)            | stages l (any stage list) / comp     | pipeline_stable           | pipeline_no_livelock_tight 1+Σlat (tight), ∏K in class, accepts 1 (v,w) | yes | A,B `stages …`, chain3, chain_fb_pr |
   | BufferizeEndpoints            | bufferize bs bd pv pr e (any Good e) | bufferize_stable          | bufferize_no_livelock, up/down, acc 1 | yes  | A,B `bufferize …`, `bufferized_up`  |
   | _UpConverter / Pack           | upConv r                             | upConv_stable             | accepts 1, no_livelock r+1            | yes  | A,B `up …`                          |
@@ -87,9 +87,10 @@ import LitexProofs.Stream.HandshakeGearboxLive
     (Shifter: `shift` held while a token waits at the source).
   The bounds `K` of the single elements are tight: the harness measures, from every explored state of the real
   netlist, the longest cooperative run without a handshake / delivery / sink handshake, and reports any excess over
-  `K` as a disagreement.  The bounds obtained through the composition-closed class `Live` (`pipeline_*`, `bufferize_*`,
-  `compose_good`) are products of the element windows: valid for every composition, tight for cascaded converters,
-  generous for chains of identity stages (measured: about the sum); the harness enforces them as upper bounds.
+  `K` as a disagreement.  So are the additive windows of pipelines of identity stages (`pipeline_no_livelock_tight`: 1 + Σ stage latencies;
+  measured gap = bound on every explored pipeline).  The bounds obtained through the composition-closed class `Live`
+  (`bufferize_*`, `compose_good`, `pipeline_no_livelock`) are products of the element windows: valid for every
+  composition, tight for cascaded converters, generous otherwise; the harness enforces them as upper bounds.
 -/
 namespace Litex.C04
 open Litex.Stream Litex.Stream.Elem
@@ -1021,6 +1022,20 @@ theorem packetfifo_buffered_no_livelock (pd qd : Nat) (hpd : 1 ≤ pd) (hqd : 1 
     n ≤ ((Litex.Packet.packetFifoBuffered pd qd).delivered
       ((Litex.Packet.packetFifoBuffered pd qd).runFrom (Litex.Packet.packetFifoBuffered pd qd).init pre) ins).length :=
   Litex.Packet.packetFifoBuffered_delivers_run pd qd hqd _ (Litex.Packet.pfbInv_reach pd qd hpd pre hpre) ins hins n hn
+
+/-- Since fix ab9acb6 the code computes `source.valid = param_fifo.source.valid & payload_fifo.source.valid`; on every
+    state reachable within the limit the second factor is implied by the first (invariant `parV → payV`), so the
+    machine above — `source.valid = param_fifo.source.valid` — shows the same ports (checked by the correspondence). -/
+theorem packetfifo_buffered_valid_agrees (pd qd : Nat) (hpd : 1 ≤ pd) (pre : List (In Litex.Packet.PBeat))
+    (hpre : RunC (Litex.Packet.packetFifoBuffered pd qd) (Litex.Packet.PfbLegal pd)
+      (Litex.Packet.packetFifoBuffered pd qd).init pre) :
+    (((Litex.Packet.packetFifoBuffered pd qd).runFrom (Litex.Packet.packetFifoBuffered pd qd).init pre).parV &&
+     ((Litex.Packet.packetFifoBuffered pd qd).runFrom (Litex.Packet.packetFifoBuffered pd qd).init pre).payV) =
+    ((Litex.Packet.packetFifoBuffered pd qd).runFrom (Litex.Packet.packetFifoBuffered pd qd).init pre).parV := by
+  obtain ⟨_, _, _, h4, _⟩ := Litex.Packet.pfbInv_reach pd qd hpd pre hpre
+  cases hp : ((Litex.Packet.packetFifoBuffered pd qd).runFrom (Litex.Packet.packetFifoBuffered pd qd).init pre).parV with
+  | false => rfl
+  | true => simp [h4 hp]
 
 /-- Negative witness for the limit (payload_depth 2, buffered: capacity 3): three non-last beats fill register and
     FIFO without a complete packet; three further cooperative cycles see no handshake.  Non-vacuity: 2-beat packets
